@@ -8,6 +8,7 @@ import (
 
 	"golang.org/x/tools/go/ssa"
 
+	"saoverif/internal/cfgx"
 	"saoverif/internal/core"
 	"saoverif/internal/eff"
 	"saoverif/internal/prog"
@@ -20,6 +21,7 @@ func checkC18(r *core.Run) {
 	r.Explanation = "C18 (structural clauses only): for each storage module, every constant store prefix that consensus code writes is read by that module's ExportGenesis and written by its InitGenesis; every field of GenesisState is assigned on export and consumed on import. A prefix missing from either table is state that a genesis round trip silently drops. Decides table agreement, not Validate(), JSON fidelity or continuation equivalence."
 	r.Rule("E6-prefix: W(module) = constant prefixes with Set/Delete effects reachable from message handlers, block hooks, staking hooks, migrations, upgrade handlers; X = prefixes iterated/read from ExportGenesis; I = prefixes written from InitGenesis; require W ⊆ X and W ⊆ I")
 	r.Rule("E6-field: every field of each module's GenesisState is stored by ExportGenesis and read by InitGenesis")
+	r.Rule("E6-all: every list field of GenesisState is exported as the unmodified result of a keeper getter whose iterator loop appends every record, and imported by a loop that persists every element")
 	r.Rule("E6-param: every parameter key registered in ParamSetPairs is read by the keeper's GetParams (exported) — InitGenesis imports through SetParamSet")
 	r.Assume(aDeps)
 	r.Assume(aCG)
@@ -181,6 +183,114 @@ func checkGenesisFields(r *core.Run, m string) {
 		}
 	}
 	r.Count("genesis_fields", n)
+	checkUnfiltered(r, m, gs, st, exp, imp)
+}
+
+// checkUnfiltered: list fields are exported as the direct result of a keeper getter that appends every
+// stored record, and imported by a loop that persists every element (no filter on either side).
+func checkUnfiltered(r *core.Run, m string, gs *types.Named, st *types.Struct, exp, imp *ssa.Function) {
+	resE := r.Resolver(exp)
+	for i := 0; i < st.NumFields(); i++ {
+		fn := st.Field(i).Name()
+		if _, isSlice := st.Field(i).Type().Underlying().(*types.Slice); !isSlice || strings.HasPrefix(fn, "XXX_") {
+			continue
+		}
+		// export side
+		var val ssa.Value
+		nst := 0
+		for _, b := range exp.Blocks {
+			for _, ins := range b.Instrs {
+				if sto, ok := ins.(*ssa.Store); ok {
+					if fa, ok := sto.Addr.(*ssa.FieldAddr); ok && namedIs(fa.X.Type(), gs) && fa.Field == i {
+						val = sto.Val
+						nst++
+					}
+				}
+			}
+		}
+		key := core.Key("E6-all", m+".GenesisState."+fn, "export-unfiltered")
+		if nst == 1 {
+			c, isCall := val.(*ssa.Call)
+			var getter *ssa.Function
+			if isCall {
+				_, cs := resE.CalleeName(&c.Call)
+				if len(cs) == 1 {
+					getter = cs[0]
+				}
+			}
+			switch {
+			case getter == nil:
+				r.Violate("E6-all", key, r.P.FuncPos(exp), fmt.Sprintf("ExportGenesis of %s does not assign GenesisState.%s directly from a keeper getter (value %s): records can be filtered or rewritten on export", m, fn, shorten(resE.Of(val).String())))
+			default:
+				if why := getterExportsAll(r, getter); why != "" {
+					r.Violate("E6-all", key, r.P.FuncPos(getter), fmt.Sprintf("%s, which feeds GenesisState.%s, does not return every stored record: %s", r.P.Name(getter), fn, why))
+				} else {
+					r.Discharge("E6-all", key, r.P.FuncPos(getter), r.P.Name(getter)+" iterates the prefix and appends every record; ExportGenesis assigns its result unmodified")
+				}
+			}
+		} else if nst > 1 {
+			r.Violate("E6-all", key, r.P.FuncPos(exp), fmt.Sprintf("GenesisState.%s is assigned %d times in ExportGenesis", fn, nst))
+		}
+		// import side: a range loop over genState.<fn> in which every iteration persists the element
+		keyI := core.Key("E6-all", m+".GenesisState."+fn, "import-all")
+		resI := r.Resolver(imp)
+		okLoop := false
+		for _, l := range cfgx.Loops(imp) {
+			iff := cfgx.IfOf(l.Header)
+			if iff == nil {
+				continue
+			}
+			ct := resI.Of(iff.Cond).String()
+			if !strings.Contains(ct, "builtin.len(#2."+fn+")") {
+				continue
+			}
+			setB := map[*ssa.BasicBlock]bool{}
+			for b := range l.Body {
+				for _, ins := range b.Instrs {
+					if c, ok := ins.(ssa.CallInstruction); ok {
+						_, cs := resI.CalleeName(c.Common())
+						if len(cs) > 0 && hasWrites(r, cs) {
+							setB[b] = true
+						}
+					}
+				}
+			}
+			if len(setB) > 0 && cutsAllCycles(l, setB) {
+				okLoop = true
+			}
+		}
+		if okLoop {
+			r.Discharge("E6-all", keyI, r.P.FuncPos(imp), "InitGenesis ranges over the list and persists every element")
+		} else {
+			r.Violate("E6-all", keyI, r.P.FuncPos(imp), fmt.Sprintf("InitGenesis of %s does not persist every element of GenesisState.%s (no range loop over it whose every iteration writes the store)", m, fn))
+		}
+	}
+}
+
+// getterExportsAll: "" when the getter is a store-iterator loop that appends on every cycle.
+func getterExportsAll(r *core.Run, g *ssa.Function) string {
+	loops := cfgx.Loops(g)
+	if len(loops) != 1 {
+		return fmt.Sprintf("expected exactly one iterator loop, found %d loops", len(loops))
+	}
+	l := loops[0]
+	if cl := classifyLoop(r, g, l); cl.Kind != "iterator" {
+		return "its loop is not a store-iterator loop (" + cl.Kind + ")"
+	}
+	app := map[*ssa.BasicBlock]bool{}
+	for b := range l.Body {
+		for _, ins := range b.Instrs {
+			if c, ok := ins.(*ssa.Call); ok {
+				if bi, ok := c.Call.Value.(*ssa.Builtin); ok && bi.Name() == "append" {
+					app[b] = true
+				}
+			}
+		}
+	}
+	if len(app) == 0 || !cutsAllCycles(l, app) {
+		return "some iteration of its loop does not append the record (a filter or continue skips it)"
+	}
+	return ""
 }
 
 func namedIs(t types.Type, n *types.Named) bool {
